@@ -9,7 +9,7 @@ import collections
 import importlib
 import re
 
-PROP_GROUPS = {'C11': ['join'], 'C02': ['join'], 'C10': ['matcher'], 'C14': ['handlers', 'vloop'], 'C17': ['rows'], 'C13': ['load']}
+PROP_GROUPS = {'C01': ['flow'], 'C07': ['flow'], 'C11': ['join'], 'C02': ['join'], 'C10': ['matcher'], 'C14': ['handlers', 'vloop'], 'C17': ['rows'], 'C13': ['load']}
 
 
 # ---------------------------------------------------------------- encoding
@@ -390,7 +390,162 @@ def run_load(ctx, b, n):
     b.flush()
 
 
-RUNNERS = {'load': run_load, 'vloop': run_vloop, 'join': run_join, 'matcher': run_matcher, 'handlers': run_handlers, 'rows': run_rows}
+def opq(kind, v):
+    return {'t': 'o', 'k': kind, 'v': v}
+
+
+def run_flow(ctx, b, n):
+    """`Flow._chain`'s dispatch of one link, `Flow._preprocess_chain`, `checkpoint.handle_flow_checkpoint` and
+    `checkpoint._preprocess_chain`: the real methods against the translated ones, the type tests / constructors as tables"""
+    import inspect
+    import itertools
+    import os
+    import shutil
+    import tempfile
+    from collections.abc import Iterable
+    from dataflows import Flow, DataStreamProcessor
+    import dataflows as DF
+    from .common import quiet
+    from .props.c01 import link_zoo, Marker
+    CK = importlib.import_module('dataflows.processors.checkpoint')
+    rng = ctx.rng('pycorr-flow')
+    WR = {'row_processor': 'row', 'rows_processor': 'rows', 'datapackage_processor': 'package', 'iterable_loader': 'iterable'}
+    D, P = opq('ds', 'upstream'), 1
+    kw = {'t': 'tuple', 'v': [to_pv('position'), to_pv(P)]}
+
+    class Upstream(DataStreamProcessor):
+        pass
+    for label, mkobj in link_zoo():
+        obj = mkobj(Marker())
+        L = opq('link', label)
+        up = Upstream()
+        try:
+            with quiet():
+                got = Flow(obj)._chain(up)
+            if isinstance(obj, Flow):
+                tag = 'nested' if got is not up else 'unchanged'
+            elif got is obj:
+                tag = 'processor'
+            elif got is up:
+                tag = 'unchanged'
+            else:
+                tag = WR.get(type(got).__name__, 'other:' + type(got).__name__)
+            real = {'ok': ['o', 'step', tag] if tag != 'unchanged' else ['o', 'ds', 'upstream']}
+        except AssertionError:
+            real = {'err': 'assertion'}
+        except Exception:  # noqa
+            real = {'err': 'user'}
+        ext = [['isinstance:Flow', [L], to_pv(isinstance(obj, Flow))],
+               ['isinstance:DataStreamProcessor', [L], to_pv(isinstance(obj, DataStreamProcessor))],
+               ['isfunction', [L], to_pv(inspect.isfunction(obj))], ['callable', [L], to_pv(callable(obj))],
+               ['isinstance:Iterable', [L], to_pv(isinstance(obj, Iterable))],
+               ['._chain', [L, D], opq('step', 'nested')], ['link', [D, kw], opq('step', 'processor')]]
+        try:
+            ext.append(['signature', [L], to_pv({'parameters': list(inspect.signature(obj).parameters)})])
+        except Exception as e:  # noqa
+            ext.append(['signature', [L], {'raise': type(e).__name__}])
+        for w, k in WR.items():
+            ext.append([w, [L], opq('wrap', k)])
+            ext.append(['$apply', [opq('wrap', k), D, kw], opq('step', k)])
+        op = {'op': 'pyeval', 'fn': 'flow_chain_body', 'mode': 'value', 'args': [], 'ext': ext, 'want': 'ds',
+              'env': [['link', L], ['ds', D], ['position', to_pv(P)]]}
+        b.add_op(op, 'flow_chain_body', real, post=lambda x: x, case=label)
+    # folding checkpoints into the chain
+    tmp = tempfile.mkdtemp(prefix='pycorr-flow-')
+    try:
+        for _ in range(max(20, n // 4)):
+            k = rng.randint(0, 6)
+            links, handled = [], set()
+            for i in range(k):
+                if rng.random() < 0.35:
+                    own = [('own%d' % i, j) for j in range(rng.randint(0, 2))] if rng.random() < 0.3 else None
+                    links.append(CK.checkpoint('cp%d' % i, checkpoint_path=tmp, steps=own))
+                else:
+                    links.append(('link', i))
+
+            def enc(x):
+                if isinstance(x, CK.checkpoint):
+                    d = {'__checkpoint__': x.checkpoint_name}
+                    if id(x) in handled:
+                        d['chain'] = tuple(x.chain)
+                    return {'t': 'dict', 'v': [[to_pv(kk), (to_pv(vv) if kk != 'chain' else {'t': 'tuple', 'v': [enc(e) for e in vv]})]
+                                               for kk, vv in d.items()]}
+                return opq('link', repr(x))
+            ext = []
+            for x in links:
+                ext.append(['hasattr', [enc(x), to_pv('handle_flow_checkpoint')], to_pv(hasattr(x, 'handle_flow_checkpoint'))])
+            # the real fold, every call of handle_flow_checkpoint recorded (and compared on its own)
+            acc = []
+            for x in links:
+                if hasattr(x, 'handle_flow_checkpoint'):
+                    before, parent = enc(x), {'t': 'list', 'v': [enc(e) for e in acc]}
+                    steps = {'t': 'tuple', 'v': [opq('link', repr(e)) for e in x.steps]}
+                    ret = x.handle_flow_checkpoint(acc)
+                    handled.add(id(x))
+                    b.add_op({'op': 'pyeval', 'fn': 'checkpoint_handle', 'mode': 'env', 'args': [before, parent, steps]},
+                             'checkpoint_handle', {'ok': [['self.chain', canon_pv({'t': 'tuple', 'v': [enc(e) for e in x.chain]})],
+                                                          ['self.steps', canon_pv(steps)]]},
+                             post=lambda v: v, case=[repr(x.steps), len(acc)])
+                    ext.append(['.handle_flow_checkpoint', [before, parent], {'t': 'list', 'v': [enc(e) for e in ret]}])
+                    acc = ret
+                else:
+                    acc.append(x)
+            expected = canon_pv({'t': 'list', 'v': [enc(e) for e in acc]})
+            # ... and the real method in one go on fresh, equal objects
+            handled2 = handled
+            fresh = [CK.checkpoint(x.checkpoint_name, checkpoint_path=tmp, steps=list(x.steps) or None) if isinstance(x, CK.checkpoint) else x
+                     for x in links]
+            handled = set()
+            args_links = {'t': 'tuple', 'v': [enc(x) for x in fresh]}
+            got = Flow(*fresh)._preprocess_chain()
+            handled = {id(x) for x in fresh}
+            real = {'ok': canon_pv({'t': 'list', 'v': [enc(e) for e in got]})}
+            if real['ok'] != expected:
+                ctx.report.fail('pyeval:flow_preprocess:recorded-fold-differs', {'links': [repr(x) for x in links]}, {'real': real, 'expected': expected})
+            handled = handled2
+            b.add_op({'op': 'pyeval', 'fn': 'flow_preprocess', 'mode': 'value', 'args': [to_pv(None), args_links], 'ext': ext},
+                     'flow_preprocess', real, post=lambda v: v, case=[repr(x) if not isinstance(x, CK.checkpoint) else x.checkpoint_name for x in links])
+        # a checkpoint asked for its chain: file present / absent
+        for i in range(max(10, n // 8)):
+            name = 'q%d' % i
+            chain = [('link', j) for j in range(rng.randint(0, 3))]
+            cp = CK.checkpoint(name, checkpoint_path=tmp, steps=chain)
+            present = rng.random() < 0.5
+            if present:
+                os.makedirs(cp.checkpoint_path, exist_ok=True)
+                open(cp.filename, 'w').close()
+            with quiet():
+                got = list(cp._preprocess_chain())
+
+            def enc2(x):
+                qn = getattr(x, '__qualname__', '')
+                if qn.startswith('unstream.'):
+                    return opq('unstream', cp.filename)
+                if qn.startswith('stream.'):
+                    return opq('stream', cp.filename)
+                if qn.startswith('_notify_checkpoint_saved.'):
+                    return opq('notify', name)
+                return opq('link', repr(x))
+            real = {'ok': canon_pv({'t': 'tuple', 'v': [enc2(x) for x in got]})}
+            chain_pv = {'t': 'tuple', 'v': [opq('link', repr(x)) for x in chain]}
+            tail = {'t': 'tuple', 'v': [opq('stream', cp.filename), opq('notify', name)]}
+            msg = ('using checkpoint data from {}' if present else 'saving checkpoint to: {}')
+            ext = [['os.path.exists', [to_pv(cp.filename)], to_pv(present)],
+                   ['.format', [to_pv(msg), to_pv(cp.checkpoint_path)], to_pv(msg.format(cp.checkpoint_path))],
+                   ['print', [to_pv(msg.format(cp.checkpoint_path))], to_pv(None)],
+                   ['unstream', [to_pv(cp.filename)], opq('unstream', cp.filename)],
+                   ['stream', [to_pv(cp.filename)], opq('stream', cp.filename)],
+                   ['_notify_checkpoint_saved', [to_pv(name)], opq('notify', name)],
+                   ['itertools.chain', [chain_pv, tail], {'t': 'tuple', 'v': chain_pv['v'] + tail['v']}]]
+            b.add_op({'op': 'pyeval', 'fn': 'checkpoint_preprocess', 'mode': 'value', 'ext': ext,
+                      'args': [to_pv(None), to_pv(cp.filename), chain_pv, to_pv(cp.checkpoint_path), to_pv(name)]},
+                     'checkpoint_preprocess', real, post=lambda v: v, case=[len(chain), present])
+    finally:
+        shutil.rmtree(tmp, ignore_errors=True)
+    b.flush()
+
+
+RUNNERS = {'flow': run_flow, 'load': run_load, 'vloop': run_vloop, 'join': run_join, 'matcher': run_matcher, 'handlers': run_handlers, 'rows': run_rows}
 
 
 def run(ctx, groups=None, n=None):
